@@ -146,6 +146,20 @@ func runDB(dir string, s sess.Session) {
 				mark(fmt.Sprintf("E %d", i))
 				err = nil
 			}
+		case "get":
+			v, gerr := db.Get(op.K)
+			switch {
+			case errors.Is(gerr, simpledb.ErrNotFound):
+				mark(fmt.Sprintf("G %d -", i))
+			case gerr != nil:
+				mark(fmt.Sprintf("G %d ERR", i))
+			default:
+				if len(v) > 40 {
+					h := sha256.Sum256([]byte(v))
+					v = fmt.Sprintf("#%d:%s", len(v), hex.EncodeToString(h[:8]))
+				}
+				mark(fmt.Sprintf("G %d =%s", i, v))
+			}
 		case "rot":
 			err = db.VerifRotate()
 		case "rotwait":
